@@ -45,6 +45,12 @@ type plantedRec struct {
 	XNum    [][]int64 `json:"xnum,omitempty"`
 	XDen    int64     `json:"xden,omitempty"`
 	UnitExp int       `json:"unitExp"`
+	Kd      int       `json:"kd,omitempty"`
+	CondHi  []int64   `json:"condHi,omitempty"`
+	RootNum [][]int64 `json:"rootnum,omitempty"`
+	SqNum   [][]int64 `json:"sqnum,omitempty"`
+	ENum    [][]int64 `json:"enum,omitempty"`
+	EDen    int64     `json:"eden,omitempty"`
 }
 
 func init() {
@@ -493,6 +499,14 @@ func replayPlanted(in *core.Lines, args []string, seed int64, sum *core.Summary)
 			k.plantedEig(p)
 		case "svd":
 			k.plantedSVD(p)
+		case "spd":
+			k.plantedSPD(p)
+		case "band":
+			k.plantedBand(p)
+		case "psd":
+			k.plantedPSD(p)
+		case "exp":
+			k.plantedExp(p)
 		default:
 			continue
 		}
@@ -511,4 +525,243 @@ func replayPlanted(in *core.Lines, args []string, seed int64, sum *core.Summary)
 		}
 	}
 	return nil
+}
+
+// basicSym hides every fast path of a symmetric operand.
+type basicSym struct{ s *mat.SymDense }
+
+func (b basicSym) Dims() (int, int)    { return b.s.Dims() }
+func (b basicSym) At(i, j int) float64 { return b.s.At(i, j) }
+func (b basicSym) T() mat.Matrix       { return b }
+func (b basicSym) SymmetricDim() int   { return b.s.SymmetricDim() }
+
+func bandOf(a [][]int64, kd int) *mat.SymBandDense {
+	n := len(a)
+	b := mat.NewSymBandDense(n, kd, nil)
+	for i := 0; i < n; i++ {
+		for j := i; j < n && j <= i+kd; j++ {
+			b.SetSymBand(i, j, float64(a[i][j]))
+		}
+	}
+	return b
+}
+
+// plantedSPD: pivoted, banded (full band) and plain Cholesky of an integer SPD matrix, several operand kinds.
+func (k *checker) plantedSPD(p *plantedRec) {
+	n := p.N
+	pfx := fmt.Sprintf("matfactor:planted-spd[%d]:", n)
+	S := symOf(p.A)
+	B := denseOf(p.B)
+	// plain Cholesky from operands without the RawSymmetricer fast path
+	for _, v := range []struct {
+		name string
+		a    mat.Symmetric
+	}{{"basic", basicSym{S}}, {"band", bandOf(p.A, n-1)}} {
+		var ch mat.Cholesky
+		var ok bool
+		name := "Cholesky.Factorize(a-" + v.name + ")"
+		if !k.call(pfx+name, func() { ok = ch.Factorize(v.a) }) {
+			continue
+		}
+		if !ok {
+			k.failf(pfx+name+":false", "Factorize returned false on the positive definite matrix %v", p.A)
+			continue
+		}
+		k.call(pfx+name+":Cond", func() { k.condRange("matfactor:Cholesky.Cond(planted)", ch.Cond(), p) })
+		var s mat.SymDense
+		if k.call(pfx+name+":ToSym", func() { ch.ToSym(&s) }) {
+			k.matrixNear(pfx+name+":ToSym", n, n, s.At, p.A, 1, p.TolA)
+		}
+		var x mat.Dense
+		var err error
+		if k.call(pfx+name+":SolveTo", func() { err = ch.SolveTo(&x, B) }) {
+			k.solved(pfx+name+":SolveTo", &x, err, p.Num, p.Det, p.TolX)
+		}
+		// A^-1 A = I through SolveCholTo
+		var id mat.Dense
+		if k.call(pfx+name+":SolveCholTo", func() { err = ch.SolveCholTo(&id, &ch) }) {
+			if err != nil {
+				k.failf(pfx+name+":SolveCholTo:error", "%v", err)
+			} else {
+				ir, ic := id.Dims()
+				w := make([][]int64, n)
+				for i := range w {
+					w[i] = make([]int64, n)
+					w[i][i] = 1
+				}
+				k.matrixNear(pfx+name+":SolveCholTo", ir, ic, id.At, w, 1, p.TolInv)
+			}
+		}
+	}
+	// pivoted Cholesky
+	var pc mat.PivotedCholesky
+	var ok bool
+	if k.call(pfx+"PivotedCholesky.Factorize", func() { ok = pc.Factorize(S, -1) }) {
+		if !ok {
+			k.failf(pfx+"PivotedCholesky.Factorize:false", "Factorize returned false on the positive definite matrix %v", p.A)
+		} else {
+			if r := pc.Rank(); r != n {
+				k.failf(pfx+"PivotedCholesky.Rank:value", "Rank = %d of a positive definite %dx%d matrix", r, n, n)
+			}
+			var u mat.TriDense
+			var piv []int
+			if k.call(pfx+"PivotedCholesky.UTo", func() { pc.UTo(&u); piv = pc.ColumnPivots(nil) }) {
+				seen := make([]bool, n)
+				perm := len(piv) == n
+				for _, q := range piv {
+					if q < 0 || q >= n || seen[q] {
+						perm = false
+						break
+					}
+					seen[q] = true
+				}
+				if !perm {
+					k.failf(pfx+"PivotedCholesky.ColumnPivots:not-a-permutation", "%v", piv)
+				} else {
+					// (P^T A P)[i][j] = A[p[i]][p[j]] = (U^T U)[i][j]
+					k.prodNear(pfx+"PivotedCholesky:UT*U", n, n, n, func(i, s int) float64 { return u.At(s, i) }, u.At,
+						func(i, j int) int64 { return p.A[piv[i]][piv[j]] }, 1, p.TolA)
+				}
+			}
+			k.call(pfx+"PivotedCholesky.At", func() { k.matrixNear(pfx+"PivotedCholesky.At", n, n, pc.At, p.A, 1, p.TolA) })
+			var x mat.Dense
+			var err error
+			if k.call(pfx+"PivotedCholesky.SolveTo", func() { err = pc.SolveTo(&x, B) }) {
+				k.solved(pfx+"PivotedCholesky.SolveTo", &x, err, p.Num, p.Det, p.TolX)
+			}
+			xb := denseOf(p.B)
+			if k.call(pfx+"PivotedCholesky.SolveTo(dst-is-b)", func() { err = pc.SolveTo(xb, xb) }) {
+				k.solved(pfx+"PivotedCholesky.SolveTo(dst-is-b)", xb, err, p.Num, p.Det, p.TolX)
+			}
+			var xv mat.VecDense
+			if k.call(pfx+"PivotedCholesky.SolveVecTo", func() { err = pc.SolveVecTo(&xv, vecOf(colOf(p.B, 0), "inc2")) }) {
+				if err != nil {
+					k.failf(pfx+"PivotedCholesky.SolveVecTo:error", "%v", err)
+				} else {
+					w := make([][]int64, n)
+					for i := range w {
+						w[i] = []int64{p.Num[i][0]}
+					}
+					k.matrixNear(pfx+"PivotedCholesky.SolveVecTo", xv.Len(), 1, xv.At, w, p.Det, p.TolX)
+				}
+			}
+			k.call(pfx+"PivotedCholesky.Cond", func() { k.condRange("matfactor:PivotedCholesky.Cond", pc.Cond(), p) })
+		}
+	}
+	k.plantedBandChol(pfx+"BandCholesky(full-band)", p, n-1)
+}
+
+func (k *checker) plantedBandChol(pfx string, p *plantedRec, kd int) {
+	n := p.N
+	var bc mat.BandCholesky
+	var ok bool
+	if !k.call(pfx+".Factorize", func() { ok = bc.Factorize(bandOf(p.A, kd)) }) {
+		return
+	}
+	if !ok {
+		k.failf(pfx+".Factorize:false", "Factorize returned false on the positive definite matrix %v", p.A)
+		return
+	}
+	k.call(pfx+".At", func() { k.matrixNear(pfx+".At", n, n, bc.At, p.A, 1, p.TolA) })
+	k.call(pfx+".Det", func() {
+		if d := bc.Det(); !k.u.near(d, p.Det, 1, p.TolDet) {
+			k.failf(pfx+".Det:value", "Det = %v, specification says %d", d, p.Det)
+		}
+		if d := math.Exp(bc.LogDet()); !k.u.near(d, p.Det, 1, p.TolDet) {
+			k.failf(pfx+".LogDet:value", "exp(LogDet) = %v, specification says %d", d, p.Det)
+		}
+	})
+	k.call(pfx+".Cond", func() { k.condRange("matfactor:BandCholesky.Cond", bc.Cond(), p) })
+	k.call(pfx+".Bandwidth", func() {
+		if _, kk := bc.SymBand(); kk != kd {
+			k.failf(pfx+".SymBand:value", "half bandwidth %d, want %d", kk, kd)
+		}
+	})
+	var x mat.Dense
+	var err error
+	if k.call(pfx+".SolveTo", func() { err = bc.SolveTo(&x, denseOf(p.B)) }) {
+		k.solved(pfx+".SolveTo", &x, err, p.Num, p.Det, p.TolX)
+	}
+	xb := denseOf(p.B)
+	if k.call(pfx+".SolveTo(dst-is-b)", func() { err = bc.SolveTo(xb, xb) }) {
+		k.solved(pfx+".SolveTo(dst-is-b)", xb, err, p.Num, p.Det, p.TolX)
+	}
+	var xv mat.VecDense
+	if k.call(pfx+".SolveVecTo", func() { err = bc.SolveVecTo(&xv, vecOf(colOf(p.B, 1), "vec")) }) {
+		if err != nil {
+			k.failf(pfx+".SolveVecTo:error", "%v", err)
+		} else {
+			w := make([][]int64, n)
+			for i := range w {
+				w[i] = []int64{p.Num[i][1]}
+			}
+			k.matrixNear(pfx+".SolveVecTo", xv.Len(), 1, xv.At, w, p.Det, p.TolX)
+		}
+	}
+}
+
+func (k *checker) plantedBand(p *plantedRec) {
+	k.plantedBandChol(fmt.Sprintf("matfactor:planted-band[%d,kd=%d]:BandCholesky", p.N, p.Kd), p, p.Kd)
+}
+
+func (k *checker) plantedPSD(p *plantedRec) {
+	n := p.N
+	pfx := fmt.Sprintf("matfactor:planted-psd[%d]:", n)
+	D := denseScaled(p.ANum, p.ADen)
+	S := mat.NewSymDense(n, nil)
+	for i := 0; i < n; i++ {
+		for j := i; j < n; j++ {
+			S.SetSym(i, j, D.At(i, j))
+		}
+	}
+	for _, v := range []struct {
+		name string
+		pow  float64
+		want [][]int64
+	}{{"PowPSD(0.5)", 0.5, p.RootNum}, {"PowPSD(1)", 1, p.ANum}, {"PowPSD(2)", 2, p.SqNum}} {
+		var r mat.SymDense
+		var err error
+		if !k.call(pfx+v.name, func() { err = r.PowPSD(S, v.pow) }) {
+			continue
+		}
+		if err != nil {
+			k.failf(pfx+v.name+":error", "%v on a positive definite matrix", err)
+			continue
+		}
+		k.matrixNear(pfx+v.name, r.SymmetricDim(), r.SymmetricDim(), r.At, v.want, p.ADen, p.TolA)
+	}
+}
+
+func (k *checker) plantedExp(p *plantedRec) {
+	n := p.N
+	pfx := fmt.Sprintf("matfactor:planted-exp[%d]:", n)
+	for _, v := range []struct {
+		name string
+		a    mat.Matrix
+	}{{"Dense.Exp", denseOf(p.A)}, {"Dense.Exp(a-basic)", basicMat{denseOf(p.A)}}} {
+		var e mat.Dense
+		if !k.call(pfx+v.name, func() { e.Exp(v.a) }) {
+			continue
+		}
+		r, c := e.Dims()
+		k.matrixNear(pfx+v.name, r, c, e.At, p.ENum, p.EDen, p.TolA)
+	}
+}
+
+// condRange: after a factorization from the matrix itself (exact norm of A known) the reported
+// condition number is a lower bound estimate: 1 <= Cond <= exact cond_1, up to the relative slack.
+func (k *checker) condRange(sig string, cond float64, p *plantedRec) {
+	if !finite(cond) {
+		k.failf(sig+":nonfinite", "Cond = %v on the positive definite matrix %v", cond, p.A)
+		return
+	}
+	g := new(big.Rat).SetFloat64(cond)
+	one := big.NewRat(1, 1)
+	lo := new(big.Rat).Sub(one, k.u.condSlop)
+	hi := new(big.Rat).Mul(big.NewRat(p.CondHi[0], p.CondHi[1]), new(big.Rat).Add(one, k.u.condSlop))
+	if g.Cmp(lo) < 0 {
+		k.failf(sig+":below-lower-bound", "Cond = %v is below 1: no condition number (matrix %v)", cond, p.A)
+	} else if g.Cmp(hi) > 0 {
+		k.failf(sig+":above-exact", "Cond = %v exceeds the exact condition number %d/%d of %v", cond, p.CondHi[0], p.CondHi[1], p.A)
+	}
 }
